@@ -18,7 +18,7 @@ EXPLANATION = (
     "The argument re-packing of a variadic recur is evaluated on representative argument tuples (nil / empty / non-empty rest); "
     "partial recomputes the apply_to of the partial from the remaining arities; a Var is called through its current value."
 )
-DECIDES = "laziness of apply on the variadic path, recur-as-loop (constant stack), rest-argument re-packing on recur, arity-dispatch shape, partial/Var call forwarding"
+DECIDES = "laziness of apply on the variadic path, recur-as-loop (constant stack), rest-argument re-packing on recur judged by what the arity binds, arity-dispatch shape, partial/Var call forwarding, apply through a Var, trampolining of coroutine functions, per-arity variadic flag of recur points"
 DECLINED = "the full binding table signature x call shape x argument count (a function of values)"
 TRUSTED = ["Python *args star-expansion realises its operand", "concat() is lazy (C06)"]
 ASSUMPTIONS = []
